@@ -13,12 +13,14 @@ import Dm.Driver.BytesCmd
 import Dm.Driver.LegacyCmd
 import Dm.Driver.GnCmd
 import Dm.Driver.TaCmd
+import Dm.Driver.FcCmd
 
 /- Line-protocol driver of the Lean model: one request per line, one answer per line. -/
 
 def handle (line : String) : String :=
   let l := line.trimAscii.toString
   if l.startsWith "fx " then Dm.FmtXCmd.cmdFx (l.drop 3).toString else
+  if l.startsWith "fc " then Dm.FcCmd.cmdFc (l.drop 3).toString else
   if l.startsWith "ta " then Dm.TaCmd.cmdTa (l.drop 3).toString else
   if l.startsWith "gn " then Dm.GnCmd.cmdGn (l.drop 3).toString else
   if l.startsWith "la " then Dm.LegacyCmd.cmdLa (l.drop 3).toString else
